@@ -13,7 +13,23 @@ type Term struct {
 	Args []*Term
 }
 
-func A(op string, args ...*Term) *Term { return &Term{Op: op, Args: args} }
+// accessorOf maps a datatype accessor to (constructor, field index) so that accessor(constructor(...))
+// is simplified when the term is built.
+var accessorOf = map[string]struct {
+	ctor string
+	idx  int
+}{
+	"s_base": {"mk_slice", 0}, "s_off": {"mk_slice", 1}, "s_len": {"mk_slice", 2}, "s_cap": {"mk_slice", 3},
+}
+
+func A(op string, args ...*Term) *Term {
+	if len(args) == 1 {
+		if ac, ok := accessorOf[op]; ok && args[0].Op == ac.ctor && ac.idx < len(args[0].Args) {
+			return args[0].Args[ac.idx]
+		}
+	}
+	return &Term{Op: op, Args: args}
+}
 func Leaf(s string) *Term               { return &Term{Op: s} }
 
 var (
@@ -62,8 +78,10 @@ func (t *Term) write(sb *strings.Builder) {
 	}
 	sb.WriteByte('(')
 	sb.WriteString(t.Op)
-	for _, a := range t.Args {
-		sb.WriteByte(' ')
+	for i, a := range t.Args {
+		if i > 0 || t.Op != "" {
+			sb.WriteByte(' ')
+		}
 		a.write(sb)
 	}
 	sb.WriteByte(')')
@@ -147,7 +165,12 @@ func Ite(c, a, b *Term) *Term {
 	}
 	return A("ite", c, a, b)
 }
-func Select(a, i *Term) *Term   { return A("select", a, i) }
+func Select(a, i *Term) *Term {
+	if a.Op == "store" && len(a.Args) == 3 && a.Args[1] == i {
+		return a.Args[2]
+	}
+	return A("select", a, i)
+}
 func Store(a, i, v *Term) *Term { return A("store", a, i, v) }
 func Add(a, b *Term) *Term      { return A("+", a, b) }
 func Sub(a, b *Term) *Term      { return A("-", a, b) }
